@@ -112,11 +112,132 @@ def is_flag_list_loose(flags, lines):
     return len(flags) == len(lines)
 
 
+# ---- gen_flags_chunk over an abstract view of the five wording patterns ---------------------------------------------------------------
+
+class WordingMatch:
+    _pyvc_sym = True
+
+    def __init__(self, s, e):
+        self.s, self.e = s, e
+
+    def start(self, n=0):
+        return self.s
+
+    def end(self, n=0):
+        return self.e
+
+
+class WordingPattern:
+    """abstraction of one of well_regex / depth_regex / including_regex / less_except_regex / isfa_regex: `search` returns the first
+    ghost match that lies inside [pos, endpos] (what re's search does when the text has exactly these matches)"""
+    _pyvc_sym = True
+
+    def __init__(self, spans):
+        self.spans = spans
+
+    def search(self, text, pos=0, endpos=None):
+        for a, b in self.spans:
+            if a >= pos and (endpos is None or b <= endpos):
+                return WordingMatch(a, b)
+        return None
+
+
+class FlagSink:
+    _pyvc_sym = True
+
+    def __init__(self):
+        self.w_flags = []
+        self.w_flag_lines = []
+
+
+WORDING = (('well_regex', 'well', 5, 25), ('depth_regex', 'depth', 10, 20), ('including_regex', 'including', 0, 40),
+           ('less_except_regex', 'less_except', 0, 40), ('isfa_regex', 'insofar', 0, 40))
+CHUNK_LEN = 120
+WORDING_VIEWS = {
+    'one phrase': {'well_regex': [(50, 58)]},
+    'two kinds, exception first': {'less_except_regex': [(10, 25)], 'well_regex': [(40, 48)]},
+    'two kinds, well first': {'well_regex': [(10, 14)], 'less_except_regex': [(40, 55)]},
+    'two kinds, inclusion before depth': {'including_regex': [(5, 14)], 'depth_regex': [(60, 82)]},
+    'same kind twice, close (one context)': {'including_regex': [(10, 19), (30, 39)]},
+    'same kind twice, far apart (two contexts)': {'well_regex': [(5, 9), (100, 104)]},
+    'phrase at the very start of the chunk': {'depth_regex': [(0, 10)]},
+    'phrase at the very end of the chunk': {'isfa_regex': [(110, 120)]},
+    'all five kinds': {'isfa_regex': [(0, 7)], 'well_regex': [(20, 28)], 'less_except_regex': [(45, 60)], 'depth_regex': [(70, 92)],
+                       'including_regex': [(100, 109)]},
+    'none': {},
+}
+
+
+def expected_contexts(view):
+    """the statement, over the ghost matches: per kind (in the order of the table) one warning per stretch of wording, a stretch being
+    a match plus every further match of the same kind that ends within the right-hand context of the previous one; its context runs
+    from `left` characters before the first match to `right` characters after the last one (clipped to the chunk)"""
+    out = []
+    for name, flag, left, right in WORDING:
+        spans = list(view.get(name, []))
+        pos = 0
+        while True:
+            first = next(((a, b) for a, b in spans if a >= pos), None)
+            if first is None:
+                break
+            last = first
+            while True:
+                nxt = next(((a, b) for a, b in spans if a >= last[1] and b <= min(CHUNK_LEN, last[1] + right)), None)
+                if nxt is None:
+                    break
+                last = nxt
+            i, j = max(0, first[0] - left), min(last[1] + right, CHUNK_LEN)
+            out.append((flag, i, j, last[1] + right))
+            pos = j
+    # the clause of the property itself: the triggering words (the first match of every kind present) lie inside a context of
+    # that kind
+    for name, flag, left, right in WORDING:
+        for a, b in list(view.get(name, []))[:1]:
+            assert any(f == flag and i <= a and b <= j for f, i, j, _ in out), (name, out)
+    return out
+
+
+expected_contexts.__pyvc_native__ = True
+
+
+def _wording_setup(ip, env):
+    from pytrs.parser.plssdesc import plss_parse
+    view = WORDING_VIEWS[env['view']]
+    for name, flag, left, right in WORDING:
+        ip.overlay[(id(plss_parse.__dict__), name)] = WordingPattern(list(view.get(name, [])))
+    ip.ctx.assumed.append('abstraction:the five wording patterns return the ghost matches of the view (search with pos / endpos)')
+
+
+def run_gen_flags(chunk):
+    from pytrs.parser.plssdesc.plss_parse import ChunkParser
+    sink = FlagSink()
+    ChunkParser.gen_flags_chunk(None, chunk, sink)
+    return sink
+
+
+def wording_flags_ok(sink, chunk, view):
+    exp = expected_contexts(WORDING_VIEWS[view])
+    return (len(sink.w_flags) == len(exp) and len(sink.w_flag_lines) == len(exp)
+            and all([sink.w_flags[k] == exp[k][0] for k in range(len(exp))])
+            # (the right end is written as the code computes it, min(end + right, len(chunk)), so that both sides are the same term)
+            and all([sink.w_flag_lines[k] == (exp[k][0], '<' + chunk[exp[k][1]:min((exp[k][3], len(chunk)))].replace('\n', ' ').strip() + '>')
+                     for k in range(len(exp))]))
+
+
+def _wording_units():
+    return [Unit(name=f'C10/gen_flags_chunk[{v}]', prop='C10', target='props.c10:run_gen_flags',
+                 params={'chunk': Str()}, ghost={'view': Const(v)}, requires=lambda chunk: len(chunk) == CHUNK_LEN,
+                 setup_params=_wording_setup,
+                 ensures=[('one_warning_per_stretch_of_wording_with_the_words_in_its_context',
+                           lambda chunk, view, result: wording_flags_ok(result, chunk, view))])
+            for v in WORDING_VIEWS]
+
+
 def units():
     from pyvc.api import borrow
     from props import c20
     # the flags SecFinder itself raises (colon modes, second pass) are part of 'flags are paired one-to-one with their lines'
-    return [_flags_unit(a) for a in ARRANGEMENTS] + _flawed_units() + [_reparse_unit()] + borrow(c20._finder_units(), 'C10')
+    return [_flags_unit(a) for a in ARRANGEMENTS] + _flawed_units() + [_reparse_unit()] + borrow(c20._finder_units(), 'C10') + _wording_units()
 
 
 # ======================================================================================================================
